@@ -137,7 +137,7 @@ def check_arc(case, ctx):
     Wf = Fraction(W)
     touches = any(fmod360(s - Wf) <= width for s in seams)
     ctx.label("full_globe" if full else "zero_width" if width == 0 else "arc")
-    ctx.label("W>E" if W > E else "W<=E", "conv180" if W2 < 0 else "conv360", *(["point_as_" + scalar] if scalar else []))
+    ctx.label("W>E" if W > E else "W<=E", "conv180" if W2 < 0 else "conv360", *(["point_as_" + scalar] if scalar else []), *(["longitudes_" + case["order"]] if case.get("order") else []))
     if touches:
         ctx.label("touches_seam")
     if any(Fraction(E) == s for s in seams):
@@ -203,7 +203,15 @@ def arc_cases(draw):
     shape = [n]
     if n % 2 == 0 and draw(st.booleans()):
         shape = [2, n // 2]
-    return dict(region=[W, E, S, N], lon=lons, lat=lats, lon_shape=shape)
+    elif n % 3 == 0 and draw(st.booleans()):
+        shape = [3, n // 3]
+    # west-to-east tracks and sorted tables: every row (or the whole array) in ascending or descending order, rows starting at different longitudes
+    order = draw(st.sampled_from(["as_drawn", "as_drawn", "rows_ascending", "rows_descending", "all_ascending"]))
+    if order != "as_drawn":
+        width = shape[-1]
+        rows = [sorted(lons[i:i + width], reverse=(order == "rows_descending")) for i in range(0, n, width)]
+        lons = [v for row in (sorted(rows) if order == "all_ascending" and len(shape) == 1 else rows) for v in row]
+    return dict(region=[W, E, S, N], lon=lons, lat=lats, lon_shape=shape, order=order)
 
 
 @st.composite
